@@ -422,6 +422,8 @@ class Interp:
         ty = k["ty"]
         if "f" in k:
             x = float(k["f"]) if k["f"] not in ("NaN", "inf", "-inf") else float(k["f"].lower())
+            if ty == "f32":
+                x = D.f32r(x)
             return Fl(x, x, x != x)
         if "v" in k:
             if ty in D.INT_TYPES:
